@@ -89,24 +89,7 @@ def recovery(src, n=2, faults=1, delays=0, rounds=6, closing=12, configs=('LIST+
     conflict) - with no start / stop job pending"""
     from harness import cluster_common as CC
     if distribution:
-        # a real start sequence is pending (real rules file; the supervisords answer late) while two crashes /
-        # restarts happen: the Master, the target of the request or a bystander - also an instance that comes back
-        # and is CHECKED but not activated while the DISTRIBUTION lasts
-        target = src.pick_int('target', 0, n - 1)
-        rules = ('<root><application name="app"><start_sequence>1</start_sequence><programs><program name="p1">'
-                 f'<identifiers>10.0.0.{target + 1}:25000</identifiers><start_sequence>1</start_sequence>'
-                 '</program></programs></application></root>')
-        release = src.pick('supervisords_answer_at_round', [4, 7])
-        kinds = [(w, i, None) for i in range(n) for w in ('crash', 'restart')]
-
-        def plan_fn(src):
-            return [(src.pick_int('fault0_round', 3, 4), src.pick_int('fault0_pos', 0, n - 1),
-                     src.pick('fault0_kind', kinds)),
-                    (src.pick_int('fault1_round', 4, 5), 0, src.pick('fault1_kind', kinds))]
-        cl, cfg, plan, senders, traces = CC.run_schedule(src, n=n, rounds=8, closing=closing, configs=configs,
-                                                         fences=fences, failures=failures, plan_fn=plan_fn,
-                                                         rules=rules, release_at=release, eager=(False, True))
-        sig = 'distribution:' + '+'.join(k[0] for _, _, k in plan)
+        cl, cfg, plan, senders, traces, sig = CC.distribution_schedule(src, n, closing, configs, fences, failures)
     elif split_brain:
         # a partition of 1..split_brain rounds (each side keeps or elects its Master) that heals
         cl, cfg, plan, senders, traces = CC.run_schedule(src, n=n, rounds=max(CC.SPLIT_STARTS) + 1 + split_brain, closing=closing,
